@@ -18,7 +18,8 @@ CHECKS = {
             "torch.autograd.functional jacobians; Gauss-Hermite quadrature; exploration over generated SDEs, no proof"),
     "C03": ("history + reference-model monitor (Chen relations) on real Brownian objects",
             "additivity, Chen's relation for U and A (against the captured tree pieces), zero-length and antisymmetry "
-            "checked online during generated hostile histories over all wrappers/configurations",
+            "checked online during generated hostile histories over all wrappers/configurations; the same relations observed "
+            "passively (vt/ridealong.py) on the Brownian histories of the repository's own test-suite",
             "float tolerances per dtype; on-grid times when tol>0"),
     "C04": ("labelled-noise exact linear-map monitor + Levy-area decomposition + sampling layer",
             "exact covariance M M^T of W/H against Brownian covariance integrals (no sampling error), bridge law with "
@@ -28,7 +29,8 @@ CHECKS = {
     "C05": ("shadow-dictionary bit-identity monitor at the API boundary",
             "every repeated (interval, flags) query compared with torch.equal across evictions, refinements and "
             "recomputation, with the process default dtype flipped in between; backward-pass queries of sdeint_adjoint "
-            "matched to forward ones, a second backward pass bit-identical; caller-owned tensors unmodified",
+            "matched to forward ones, a second backward pass bit-identical; caller-owned tensors unmodified; a passive "
+            "shadow monitor (vt/ridealong.py) rides along the repository's own test-suite",
             "identical float end points"),
     "C06": ("twin-object differential monitor",
             "same-seed/same-history twins and, in dyadic mode, twins with different histories probed on the same "
@@ -37,7 +39,8 @@ CHECKS = {
             "dyadic mode for the history-independence clause"),
     "C07": ("invariant hooks: stack-depth probe, per-call operation budget, cache bound, exception monitor under stress",
             "tens of thousands of solver-shaped queries, all cache sizes, slivers, sub-tolerance queries and sdeint "
-            "with its default Brownian motion, with depth/ops/cache monitors armed",
+            "with its default Brownian motion, with depth/ops/cache monitors armed; the cache-bound post-condition also rides "
+            "along the repository's own test-suite (vt/ridealong.py)",
             "logical-step bound stands in for non-termination; depth compared at n and 8n"),
     "C08": ("finite-difference oracle on real backprop with frozen (injected) adaptive schedules",
             "directional central differences of a random functional of all outputs vs autograd for every solver x noise "
@@ -60,7 +63,8 @@ CHECKS = {
     "C12": ("step-log monitor against a reference model of the dt grid and linear interpolation",
             "every step logged via SolverProbe; grid, interpolation and output-time invariance asserted for sdeint and "
             "the sdeint_adjoint forward pass; list/tuple/tensor times, default dtype float32, mixed precision, "
-            "non-contiguous initial states, inputs unmodified",
+            "non-contiguous initial states, inputs unmodified; the grid/interpolation model also checks every fixed-step "
+            "integrate call (forward and adjoint-backward) made by the repository's own test-suite (vt/ridealong.py)",
             "grid model in ts dtype"),
     "C13": ("checkpoint-restart differential monitor",
             "one-shot vs chunked integration at every cut position / random multi-cuts on the nominal dt grid, torch.equal "
@@ -70,7 +74,8 @@ CHECKS = {
             "trials parsed from Brownian queries and controller calls; tiling, dt_min, accept/reject rule, error norm "
             "recomputation, termination bound; adversarial error sequences injected at compute_error; sdeint, the forward "
             "pass of sdeint_adjoint and every reverse-time solve of an adjoint_adaptive backward pass; mixed time/state "
-            "dtypes, tensor dt/dt_min",
+            "dtypes, tensor dt/dt_min; the same trace model rides along every adaptive solve of the repository's own "
+            "test-suite (vt/ridealong.py)",
             "dt >= dt_min; logical trial bound"),
     "C15": ("algebraic round-trip monitor for reversible Heun",
             "step-level inverse identity and trajectory-level reconstruction through ReverseBrownian (grid and off-grid "
